@@ -56,6 +56,25 @@ def reachable_rows(repo, weights, rows, sites):
     return reach
 
 
+def iter_rule(rep, rid, lmod, fn, d, cname):
+    """the dispatch loop visits every op once, in op-list order, with its first six columns: read off `<ops>[:, :6]`, evaluated for any other iterable"""
+    from kvstatic import opsiter
+    it = getattr(d, 'ops_iter', d.loop.iter)
+    if isinstance(it, ast.Subscript):
+        if not (isinstance(it.slice, ast.Tuple) and norm(it.slice) in ('(slice(None, None, None), slice(None, 6, None))',) or norm(it).endswith('[:, :6]')):
+            rep.violate(rid, lmod, fn, it, f'{cname}: the loop does not iterate the first six op columns: {norm(it)}', node=it)
+        return
+    if rid not in getattr(rep, '_iter_rules', set()):
+        rep._iter_rules = getattr(rep, '_iter_rules', set()) | {rid}
+        if rid == 'C01.columns':
+            rep.rule(rid, 'the dispatch loop visits every op once, in op-list order, with its first six columns (iterable evaluated)')
+    ok, msg, nev = opsiter.evaluate(it, fn)
+    rep.ob(rid, f'{cname}: iterable `{norm(it)[:60]}` evaluated on op tables x level tables', ok, evals=nev)
+    if not ok:
+        rep.violate(rid, lmod, fn, it, f'{cname}: the iterable `{norm(it)[:80]}` of the dispatch loop {msg}: an op evaluated twice is reported to the callback twice '
+                    f'(and before its operands are final), a skipped op leaves stale data', node=it)
+
+
 def chains_2v(repo):
     """The two 2-valued dispatch chains: logic_sim._prop_cpu and the callback arm of LogicSim.c_prop."""
     mod = repo.mod('logic_sim')
@@ -210,9 +229,7 @@ def run(rep: Report, repo: Repo):
         rep.ob('C01.rebind', cname, ok)
         if not ok:
             rep.violate('C01.rebind', lmod, fn, d.rebinding, f'{cname}: op columns 1..5 are not mapped 1:1 through c_locs before the chain', node=d.rebinding)
-        it = getattr(d, 'ops_iter', d.loop.iter)
-        if not (isinstance(it.slice, ast.Tuple) and norm(it.slice) in ('(slice(None, None, None), slice(None, 6, None))',) or norm(it).endswith('[:, :6]')):
-            rep.violate('C01.columns', lmod, fn, it, f'{cname}: the loop does not iterate the first six op columns: {norm(it)}', node=it)
+        iter_rule(rep, 'C01.columns', lmod, fn, d, cname)
         seen = {}
         for const, test, body in d.arms:
             nbranch += 1
